@@ -1244,6 +1244,10 @@ def py_getattr(I, obj, name, node=None):
             return ()
     if isinstance(obj, (int, float)) and name == "copy":
         return PyBuiltin("num.copy", lambda I_: obj)
+    if obj is None:
+        # a concrete None on a feasible path: CPython raises here - an exception-freedom obligation that fails (or control flow, inside a matching try)
+        I.P.check("no-exception[%s]" % I.site(node), False, "attribute %s of None: AttributeError" % name)
+        raise PyRaise("AttributeError")
     raise Unsupported("attribute %s of %r (line %s)" % (name, type(obj).__name__, getattr(node, "lineno", "?")))
 
 
